@@ -53,6 +53,11 @@ func (n *WALNode) Attr(ctx context.Context, attr *fuse.Attr) error {
 
 func (n *WALNode) Setattr(ctx context.Context, req *fuse.SetattrRequest, resp *fuse.SetattrResponse) error {
 	if req.Valid.Size() {
+		// The WAL of a node that has just lost its write authority still holds
+		// the transactions it committed; they are part of the database.
+		if !n.db.Writeable() {
+			return ToError(litefs.ErrReadOnlyReplica)
+		}
 		if err := n.db.TruncateWAL(ctx, int64(req.Size)); err != nil {
 			return err
 		}
